@@ -85,10 +85,10 @@ void harness_recover(void) {
 }
 
 /* encrypt: failure masking */
-static int nf_ret;
+static int nf_ret; static unsigned char nf_out[32];
 static int custom_nonce(unsigned char *nonce32, const unsigned char *msg32, const unsigned char *key32, const unsigned char *pk33, const unsigned char *algo, size_t algolen, void *data) {
     struct verif_nonce { unsigned char b[32]; } nondet_nonce(void); struct verif_nonce v = nondet_nonce(); (void)msg32; (void)key32; (void)pk33; (void)algo; (void)algolen; (void)data;
-    memcpy(nonce32, v.b, 32); nf_ret = nondet_int(); return nf_ret;
+    memcpy(nonce32, v.b, 32); memcpy(nf_out, v.b, 32); nf_ret = nondet_int(); return nf_ret;
 }
 void harness_encrypt(void) {
     secp256k1_context ctx; in_t in = nondet_in(); unsigned char out[162]; int r; bvw d = be_val(in.key, 32), ex;
@@ -99,6 +99,16 @@ void harness_encrypt(void) {
     if (ex == 0) __CPROVER_assert(r == 0 && verif_illegal_count == 1, "invalid encryption key is an argument error");
     else {
         if (d == 0 || d >= N || !nf_ret || !dp_ret) __CPROVER_assert(r == 0, "invalid signing key, failing nonce function or failing DLEQ proof => failure");
+        {   /* exact success set and s' = k^-1 (R.x d + m) with the message REDUCED mod n (messages >= n are valid inputs) */
+            bvw k = redN(be_val(nf_out, 32)), sigr = redN(fe_val(&glue_R[0].x)), mm = redN(be_val(in.msg, 32)), sp;
+            int dok = d != 0 && d < N;
+            sp = (bvw)uf_scmul(uf_scinv((sbv)(nf_ret && k != 0 ? k : 1)), (sbv)addN((bvw)uf_scmul((sbv)sigr, (sbv)(dok ? d : 1)), mm));
+            if (nf_ret && k != 0 && dp_ret && dok) {
+                __CPROVER_assert(r == (sigr != 0 && sp != 0), "encrypt succeeds exactly when R.x mod n != 0 and s' != 0 (any 32-byte message, reduced mod n)");
+                if (r) __CPROVER_assert(be_val(out + 66, 32) == sp, "s' = k^-1 (R.x d + (m mod n))");
+                __CPROVER_assert(!(r && be_val(in.msg, 32) >= N), "witness: success with a message >= n");
+            }
+        }
         if (!r) __CPROVER_assert(verif_allzero(out, 162), "failure => 162 zero bytes");
         if (r) { __CPROVER_assert((out[0] == 2 || out[0] == 3) && (out[33] == 2 || out[33] == 3) && be_val(out + 66, 32) != 0 && be_val(out + 66, 32) < N && be_val(out + 1, 32) == fe_val(&glue_R[0].x) && be_val(out + 34, 32) == fe_val(&glue_R[1].x), "success => (R = kY, R' = kG, 0 < s' < n) serialized");
                  __CPROVER_assert(glue_kind[0] == 3 && glue_kind[1] == 2 && sc_bv(&glue_na[0]) == sc_bv(&glue_ng[1]), "R and R' use the same nonce"); __CPROVER_assert(0, "witness: encrypt success"); }
